@@ -54,6 +54,7 @@ decided as E1 + E2 instead; the ordering is decided where it matters (X2, the ex
 """
 from ..flow import guards_of, path_search, describe_path, forward_may
 from ..stale import Stale
+from ..c06_util import inlined_view
 
 KNOWN = [
     # (rule, key, explanation) -- genuine findings on the current tree, reported with R.bad.  None at present.
@@ -175,6 +176,50 @@ def _parent_skip(fn, nid):
             continue
         return pn, child
     return None, child
+
+
+def _result_use(fn, c):
+    """How is the bool result of call node c used?  ('cond', [(block id, edge index taken when the result is false)]) when it is a
+    branch condition (directly, negated, or through a local that is only initialised from it), ('discarded', []), ('returned', [])
+    when the function forwards it, else ('unknown', node)."""
+    def cond_blocks(match):
+        out = []
+        for b in fn.blocks.values():
+            if 'cond' not in b or len(b['succs']) != 2 or b.get('termcls') == 'SwitchStmt':
+                continue
+            atom, neg = _cond_atom(fn, b['cond'])
+            if atom is not None and match(atom):
+                out.append((b['id'], 0 if neg else 1))
+        return out
+    direct = cond_blocks(lambda a: a['id'] == c['id'])
+    if direct:
+        return 'cond', direct
+    pn, _child = _parent_skip(fn, c['id'])
+    while pn is not None and pn.get('k') == 'cast' and pn.get('toC', pn.get('to')) == 'void':
+        pn, _child = _parent_skip(fn, pn['id'])
+    if pn is None:
+        return 'discarded', []
+    if pn.get('k') == 'return':
+        return 'returned', []
+    if pn.get('k') == 'decl':
+        d = next((v['d'] for v in pn['vars'] if isinstance(v.get('init'), int) and c['id'] in fn.subtree(v['init'])), None)
+        if d is not None:
+            for n in fn.all_nodes():
+                if n.get('k') == 'assign':
+                    l = fn.sn(n['lhs'])
+                    if l is not None and l.get('k') == 'var' and l.get('d') == d:
+                        return 'unknown', pn
+            uses = [n for n in fn.all_nodes() if n.get('k') == 'var' and n.get('d') == d]
+            tested = cond_blocks(lambda a: a.get('k') == 'var' and a.get('d') == d)
+            if not uses:
+                return 'discarded', []
+            if tested and len(tested) >= len(uses):
+                return 'cond', tested
+            rets = [n for n in fn.all_nodes() if n.get('k') == 'return' and 'sub' in n and (fn.sn(n['sub']) or {}).get('d') == d
+                    and (fn.sn(n['sub']) or {}).get('k') == 'var']
+            if tested or rets:
+                return ('cond', tested) if tested else ('returned', [])
+    return 'unknown', pn
 
 
 def _pieces(fn, source_q):
@@ -579,26 +624,18 @@ def window_rules(fb, R, S=None, records=None):
             for c in calls:
                 key = '%s#%s(%s)' % (fn.q, _short(c['q']), ', '.join(fn.expr(a) for a in _real_args(fn, c)))
                 # how is the result used?
-                cond_block, fail_idx = None, None
-                for b in fn.blocks.values():
-                    if 'cond' not in b or len(b['succs']) != 2:
-                        continue
-                    atom, neg = _cond_atom(fn, b['cond'])
-                    if atom is not None and atom['id'] == c['id']:
-                        cond_block, fail_idx = b['id'], (0 if neg else 1)
-                discarded = False
-                if cond_block is None:
-                    pn, _child = _parent_skip(fn, c['id'])
-                    while pn is not None and pn.get('k') == 'cast' and pn.get('toC', pn.get('to')) == 'void':
-                        pn, _child = _parent_skip(fn, pn['id'])
-                    if pn is None:
-                        discarded = True
-                    else:
-                        R.broken('%s: result of %s is used in a way this rule does not understand (%s)' % (fn.q, c['q'], fn.expr(pn['id'])[:80]))
-                        continue
+                how_used, tests = _result_use(fn, c)
+                if how_used == 'unknown':
+                    R.broken('%s: result of %s is used in a way this rule does not understand (%s)' % (fn.q, c['q'], fn.expr(tests['id'])[:80]))
+                    continue
+                if how_used == 'returned':
+                    R.ok('W2-refill-result-decides', key, fn.loc(c['id']), 'result forwarded to the caller')
+                    continue
+                discarded = how_used == 'discarded'
+                fail_edges = dict(tests)
 
-                def edge_ok(b, idx, s, cond_block=cond_block, fail_idx=fail_idx):
-                    return not (b == cond_block and idx != fail_idx)
+                def edge_ok(b, idx, s, fail_edges=fail_edges):
+                    return not (b in fail_edges and idx != fail_edges[b])
                 wit = path_search(fn, c['id'], unbounded_use, lambda e: e in callids or _is_throw(fn, e), _normal_edges(fn, edge_ok))
                 how = 'ignored' if discarded else 'false'
                 R.check(wit is None, 'W2-refill-result-decides', key, fn.loc(c['id']),
@@ -761,6 +798,8 @@ def carry_rules(fb, R, M=None, wins=None):
                     continue
                 if k in ('call', 'construct') and pn.get('q', '').startswith(STR):
                     continue  # source operand of a std::string operation (copy)
+                if k == 'call' and pn.get('inlined'):
+                    continue  # argument of a helper whose body was spliced in: its uses are examined in place
                 if k == 'init':
                     continue
                 R.bad('M1-carry-over-mutation-whitelist', '%s#%s.escapes' % (fn.q, name), fn.loc(n['id']),
@@ -1328,6 +1367,25 @@ def fd_rules(fb, R):
     F2: an accumulating reader loops until the remaining count is zero, reads at offset size - remaining, and fails only on a
     zero-byte read."""
     decomp = {r.q for r in fb.derived_from(DECOMPRESSOR)} | {DECOMPRESSOR}
+    # stream producers: Decompressor::read overrides plus the non-public helpers of the same class that are only ever called from
+    # a producer of that class (their body is part of read(); treated as inlined)
+    producers = {f.usr: f for f in fb.functions if f.has_cfg and f.cls in decomp and f.name == 'read'}
+    callers = {}
+    for f in fb.functions:
+        if f.has_cfg:
+            for n in f.all_nodes():
+                if n.get('k') == 'call' and n.get('u'):
+                    callers.setdefault(n['u'], set()).add(f.usr)
+    changed = True
+    while changed:
+        changed = False
+        for f in fb.functions:
+            if not f.has_cfg or f.usr in producers or f.cls not in decomp or f.access == 'public' or f.kind != 'method':
+                continue
+            cs = callers.get(f.usr, set())
+            if cs and all(c in producers and producers[c].cls == f.cls for c in cs):
+                producers[f.usr] = f
+                changed = True
     accum = {}
     for fn in fb.functions:
         if not fn.has_cfg or ('/io/' not in fn.file and '/selftest/positive/' not in fn.file):
@@ -1341,8 +1399,9 @@ def fd_rules(fb, R):
             if fn.q in SINGLE_READ:
                 R.ok('F1-fd-read-is-exact', key, site, 'single-shot wrapper')
                 continue
-            if fn.cls in decomp and fn.name == 'read':
-                R.ok('F1-fd-read-is-exact', key, site, 'stream producer: a short read is a shorter piece')
+            if fn.usr in producers:
+                R.ok('F1-fd-read-is-exact', key, site, 'stream producer (Decompressor::read override or its private helper): a short read '
+                     'is a shorter piece')
                 continue
             inloop = [l for l in fn.loops if fn.in_range(c['id'], l['b'], l['e'])]
             if not inloop:
@@ -1362,19 +1421,26 @@ def fd_rules(fb, R):
         for c in [n for n in fn.all_nodes() if n.get('k') == 'call' and n.get('u') in accum]:
             a = _real_args(fn, c)
             key = '%s#fd-read(%s)' % (fn.q, fn.expr(a[-1]) if a else '')
-            tested = False
-            for b in fn.blocks.values():
-                if 'cond' in b and len(b['succs']) == 2:
-                    atom, _neg = _cond_atom(fn, b['cond'])
-                    if atom is not None and atom['id'] == c['id']:
-                        tested = True
+            tested = _result_use(fn, c)[0] in ('cond', 'returned')
             R.check(tested, 'F1-fd-read-is-exact', key, fn.loc(c['id']),
                     '%s ignores whether %s delivered all requested bytes' % (fn.q, _short(c['q'])), 'exact read, result branches')
 
 
 def _accumulating_reader(fn, c, R):
+    """F2.  Two equivalent book-keeping forms are understood: a *remaining* counter (rem = size; rem -= n; read(buf + (size - rem),
+    rem); done when rem == 0) and a *done* counter (done = 0; done += n; read(buf + done, size - done); done when done >= size)."""
     base = fn.q
-    pm = fn.parent_map()
+
+    def is_var(x, d):
+        return x is not None and x.get('k') == 'var' and x.get('d') == d
+
+    def uncast(x):
+        hops = 0
+        while x is not None and x.get('k') == 'cast' and hops < 4:
+            x = fn.sn(x['sub'])
+            hops += 1
+        return x
+
     # result variable
     res = None
     pn, _ch = _parent_skip(fn, c['id'])
@@ -1385,55 +1451,64 @@ def _accumulating_reader(fn, c, R):
     elif pn is not None and pn.get('k') == 'assign' and pn['op'] == '=':
         l = fn.sn(pn['lhs'])
         res = l['d'] if l is not None and l.get('k') == 'var' else None
-    # remaining counter: local with `rem -= <res>`
-    rem, dec = None, None
+    # the counter: a local updated with `-= res` (remaining) or `+= res` (done)
+    ctr, upd, form = None, None, None
     for n in fn.all_nodes():
-        if n.get('k') == 'assign' and n['op'] == '-=':
+        if n.get('k') == 'assign' and n['op'] in ('-=', '+='):
             l = fn.sn(n['lhs'])
-            r = n['rhs']
-            rs = fn.sn(r)
-            hops = 0
-            while rs is not None and rs.get('k') == 'cast' and hops < 4:
-                rs = fn.sn(rs['sub'])
-                hops += 1
-            if l is not None and l.get('k') == 'var' and rs is not None and rs.get('k') == 'var' and rs.get('d') == res:
-                rem, dec = l['d'], n['id']
-    if res is None or rem is None:
-        R.broken('%s: accumulating reader of unknown shape (no `remaining -= <result of the read>` found)' % base)
+            rs = uncast(fn.sn(n['rhs']))
+            if l is not None and l.get('k') == 'var' and l.get('vk') == 'local' and is_var(rs, res):
+                ctr, upd, form = l['d'], n['id'], ('rem' if n['op'] == '-=' else 'done')
+    if res is None or ctr is None:
+        R.broken('%s: accumulating reader of unknown shape (no `remaining -= n` / `done += n` on the result of the read found)' % base)
         return
-    # the size the counter starts from
-    total = None
+    init = None
     for n in fn.all_nodes():
         if n.get('k') == 'decl':
             for v in n['vars']:
-                if v['d'] == rem and isinstance(v.get('init'), int):
-                    x = fn.sn(v['init'])
-                    if x is not None and x.get('k') == 'var' and x.get('vk') == 'param':
-                        total = x['d']
+                if v['d'] == ctr and isinstance(v.get('init'), int):
+                    init = v['init']
+    a = _real_args(fn, c)
+    total = None
+    if form == 'rem':
+        x = fn.sn(init) if init is not None else None
+        if x is not None and x.get('k') == 'var' and x.get('vk') == 'param':
+            total = x['d']
+    else:
+        if init is not None and fn.const_value(init) == 0:
+            for x in a:
+                sx = uncast(fn.sn(x))
+                if sx is not None and sx.get('k') == 'binop' and sx['op'] == '-' and is_var(fn.sn(sx['rhs']), ctr):
+                    t = fn.sn(sx['lhs'])
+                    if t is not None and t.get('k') == 'var' and t.get('vk') == 'param':
+                        total = t['d']
 
-    def is_var(x, d):
-        return x is not None and x.get('k') == 'var' and x.get('d') == d
-
-    def zero_edge(b, idx):
-        """edge on which remaining == 0 is known"""
+    def complete_edge(b, idx):
+        """edge on which nothing is missing any more: remaining == 0 / done >= size"""
         blk = fn.blocks[b]
         if 'cond' not in blk or len(blk['succs']) != 2 or blk.get('termcls') == 'SwitchStmt':
             return False
         x, neg = _cond_atom(fn, blk['cond'])
         val = (idx == 0) != neg
-        if x is not None and x.get('k') == 'binop':
-            l, r = fn.sn(x['lhs']), fn.sn(x['rhs'])
-            if is_var(r, rem) and fn.const_value(x['lhs']) == 0:
-                l, r = r, l
-                op = {'<': '>', '>': '<', '<=': '>=', '>=': '<=', '==': '==', '!=': '!='}.get(x['op'])
-            else:
-                op = x['op']
-                if not (is_var(l, rem) and fn.const_value(x['rhs']) == 0):
-                    return False
-            return (op in ('>', '!=') and not val) or (op in ('==', '<=') and val)
-        if is_var(x, rem):
+        if x is None:
+            return False
+        if form == 'rem' and is_var(x, ctr):
             return not val
-        return False
+        if x.get('k') != 'binop' or x['op'] not in ('<', '>', '<=', '>=', '==', '!='):
+            return False
+        l, r, op = fn.sn(x['lhs']), fn.sn(x['rhs']), x['op']
+        flip = {'<': '>', '>': '<', '<=': '>=', '>=': '<=', '==': '==', '!=': '!='}
+        if form == 'rem':
+            if is_var(r, ctr) and fn.const_value(x['lhs']) == 0:
+                op = flip[op]
+            elif not (is_var(l, ctr) and fn.const_value(x['rhs']) == 0):
+                return False
+            return (op in ('>', '!=') and not val) or (op in ('==', '<=') and val)
+        if is_var(r, ctr) and is_var(l, total):
+            op = flip[op]
+        elif not (is_var(l, ctr) and is_var(r, total)):
+            return False
+        return (op in ('<', '!=') and not val) or (op in ('>=', '==') and val)
 
     rets = [n for n in fn.all_nodes() if n.get('k') == 'return' and 'sub' in n]
     if fn.retC == 'bool' and all(fn.const_value(n['sub']) in (0, 1) for n in rets):
@@ -1445,25 +1520,36 @@ def _accumulating_reader(fn, c, R):
         target = _exit_t
     failids = {n['id'] for n in fail}
     wit = path_search(fn, fn.entry, target, lambda e: e in failids or _is_throw(fn, e),
-                      _normal_edges(fn, lambda b, idx, s: not zero_edge(b, idx)), from_block_start=True)
+                      _normal_edges(fn, lambda b, idx, s: not complete_edge(b, idx)), from_block_start=True)
     R.check(wit is None, 'F2-read-exactly-accumulates', base + '#until-complete', fn.site,
             '%s can report success while bytes are still missing (it must loop until the remaining count is zero; a single read is '
-            'one possible segmentation only): %s' % (base, describe_path(fn, wit)), 'success only through an edge asserting remaining == 0')
+            'one possible segmentation only): %s' % (base, describe_path(fn, wit)), 'success only through an edge asserting that nothing is missing')
     # offset and count of the read
-    a = _real_args(fn, c)
-    cnt_ok = any(is_var(fn.sn(x), rem) for x in a)
-    off_ok = False
+    cnt_ok = off_ok = False
     for x in a:
-        sx = fn.sn(x)
-        if sx is not None and sx.get('k') == 'binop' and sx['op'] == '+':
-            p, o = fn.sn(sx['lhs']), fn.sn(sx['rhs'])
-            if p is not None and p.get('k') == 'var' and p.get('vk') == 'param' and o is not None and o.get('k') == 'binop' and o['op'] == '-':
-                if total is not None and is_var(fn.sn(o['lhs']), total) and is_var(fn.sn(o['rhs']), rem):
+        sx = uncast(fn.sn(x))
+        if sx is None:
+            continue
+        if form == 'rem':
+            if is_var(sx, ctr):
+                cnt_ok = True
+            if sx.get('k') == 'binop' and sx['op'] == '+':
+                p_, o = fn.sn(sx['lhs']), fn.sn(sx['rhs'])
+                if p_ is not None and p_.get('k') == 'var' and p_.get('vk') == 'param' and o is not None and o.get('k') == 'binop' and o['op'] == '-' \
+                        and total is not None and is_var(fn.sn(o['lhs']), total) and is_var(fn.sn(o['rhs']), ctr):
                     off_ok = True
-    cyc = path_search(fn, c['id'], lambda e: e == c['id'], lambda e: e == dec, _normal_edges(fn))
+        else:
+            if sx.get('k') == 'binop' and sx['op'] == '-' and total is not None and is_var(fn.sn(sx['lhs']), total) and is_var(fn.sn(sx['rhs']), ctr):
+                cnt_ok = True
+            if sx.get('k') == 'binop' and sx['op'] == '+':
+                p_, o = fn.sn(sx['lhs']), fn.sn(sx['rhs'])
+                if p_ is not None and p_.get('k') == 'var' and p_.get('vk') == 'param' and is_var(o, ctr):
+                    off_ok = True
+    cyc = path_search(fn, c['id'], lambda e: e == c['id'], lambda e: e == upd, _normal_edges(fn))
     R.check(cnt_ok and off_ok and cyc is None, 'F2-read-exactly-accumulates', base + '#appends-at-offset', fn.loc(c['id']),
-            '%s: each read must ask for the remaining count and store at buffer + (size - remaining), and every iteration must decrease '
-            'the remaining count by the bytes read (%s)' % (base, fn.expr(c['id'])[:100]), 'reads remaining bytes at offset size - remaining')
+            '%s: each read must ask for the missing count and store behind the bytes already read (buffer + (size - remaining), remaining / '
+            'buffer + done, size - done), and every iteration must account for the bytes read (%s)' % (base, fn.expr(c['id'])[:100]),
+            'reads the missing bytes behind those already read')
     # failure only on a zero-byte read
     for n in fail or [n for n in fn.all_nodes() if n.get('k') == 'throw']:
         ok = False
@@ -1480,6 +1566,11 @@ def _accumulating_reader(fn, c, R):
 # ------------------------------------------------------------------------------------------------ driver
 
 def all_rules(fb, R):
+    # private single-purpose helpers (append_next_piece(), repoint(), flush_rest(worker, rest), throw_truncated(), ...) are spliced
+    # into their callers first, so that an "extract method" refactoring leaves the bodies the rules look at unchanged
+    fb, spliced = inlined_view(fb)
+    if spliced:
+        R.note('helpers analysed as part of their callers: %s' % ', '.join(sorted({g.q for g in spliced.values()})))
     S = Stale(fb)
     wins = window_rules(fb, R, S)
     local_rules(fb, R, S)
